@@ -22,7 +22,7 @@ def op_to_coq(o):
         return "WTick %s" % b(o.get("stale", False))
     if k == "Terminated":
         return "WTerminated %s" % g("ctrl")
-    if k == "QueueResult":
+    if k in ("QueueResult", "Restart"):
         raise ValueError("durable-lane cases are oracle only")
     raise ValueError(o)
 
@@ -105,10 +105,33 @@ def oracle_c44(c):
     handed = {}                # mid -> set of companions it was sent to
     acked_tokens = set()
     prev = None
+    reported = {}              # companion -> highest confirmation it ever reported (Request/Ack it sent)
+    restarted = False
+    all_notices = set()        # every job number ever confirmed to the producer (across controller restarts)
+    if c.get("panic"):
+        k = len(c["ops"])
+        return [("panic:controller-receive", "the controller's Receive panicked (%s) on %s: the supervisor restarts it and a volatile flow loses its pending and unconfirmed jobs" %
+                 (c["panic"], c["ops"][-1]), k)]
     for k in range(len(c["obs"])):
         g = decode(c["obs"][k])
         op = c["ops"][k - 1] if k > 0 else None
         S = g["S"]
+        if op is not None and op["op"] == "Restart":
+            # a supervised restart: the durable queue is the source of truth; re-base the bookkeeping on what was reloaded
+            accepted = Counter(S["pending"])
+            confirmed = Counter()
+            stored, acked_tokens, reported = {}, set(), {}
+            all_notices = set()   # confirmations not yet persisted at a restart are redelivered and confirmed again (documented at-least-once)
+            restarted = True
+            if S["n_bindings"] != 0 or S["n_order"] != 0:
+                bad.append(("restart:bindings-survive", "after a restart the controller still holds %d bindings / %d order entries: a re-registering worker is taken for a known one and never enters the rotation" % (S["n_bindings"], S["n_order"]), k))
+        if op is not None and op["op"] in ("Request", "Ack") and op.get("s", 0) == 1:
+            reported[op.get("ctrl")] = max(reported.get(op.get("ctrl"), 0), op.get("c", 0))
+        for ctrl, ms in g["to"].items():
+            for m in ms:
+                if m[0] == 1 and m[2] - 1 > reported.get(ctrl, 0):
+                    bad.append(("regack:next-seq-skips-unconfirmed-jobs", "RegistrationAck tells companion %d to resume at seq %d although it only ever confirmed up to %d: the jobs in between are skipped and its next Request confirms jobs no worker processed" %
+                                (ctrl, m[2], reported.get(ctrl, 0)), k))
         for m in g["toProd"]:
             if m[0] == 4:
                 stored[m[2]] = (m[3], m[4])
@@ -125,6 +148,7 @@ def oracle_c44(c):
         for m in g["toProd"]:
             if m[0] == 5:
                 job = (m[2], m[3])
+                all_notices.add(m[2])
                 confirmed[job] += 1
                 if confirmed[job] > 1:
                     bad.append(("confirm:more-than-once", "job %s confirmed to the producer %d times" % (job, confirmed[job]), k))
@@ -177,9 +201,9 @@ def oracle_c44(c):
         if bad:
             break
     if not bad and c.get("durable") and not c.get("failed"):
-        notices = sorted(j[0] for j in confirmed)
+        notices = sorted(all_notices)
         qc = sorted(c.get("queue_confirmed") or [])
-        if c["notify"] and notices != qc:
+        if c["notify"] and (notices != qc if not restarted else not set(notices) <= set(qc)):
             bad.append(("durable:confirmation-not-persisted", "jobs confirmed to the producer %s, jobs the durable work queue holds as confirmed %s" % (notices, qc), len(c["obs"]) - 1))
         held_now = sorted(j[0] for j in (Counter(prev["S"]["pending"]) + Counter((d[0], d[2]) for b_ in prev["S"]["bindings"] if b_ for d in b_["unconf"])).elements())
         left = sorted(c.get("queue_left") or [])
